@@ -88,6 +88,14 @@ func verifC11Sys(id string, seed int64) *verifSys {
 	question := ""
 	if parts[2] == "q" {
 		question = "what is it?"
+	} else if strings.HasPrefix(parts[2], "q") {
+		// a question of exactly that many bytes (around and beyond any internal buffer size)
+		n := 0
+		fmt.Sscanf(parts[2], "q%d", &n)
+		for len(question) < n {
+			question += "is it you? "
+		}
+		question = question[:n]
 	}
 	init := int(parts[3][4] - 'A')
 	fmt.Sscanf(parts[4], "S%d", &starts)
@@ -559,7 +567,7 @@ func init() {
 			return fs
 		},
 		Run: func(r *verifReport) {
-			r.Rule = "honest world: for every secret pair (empty, equal, case / last-bit / NUL-suffix / prefix / trailing-blank differences, blank vs. empty, invalid UTF-8, 1000-byte, binary) × with/without question × either initiator × v2/v3: explicit-state exploration of all interleavings of SMP steps, the answer, a budget of chat texts either way (forcing key rotation) and a clock tick, with 1 or 2 StartAuthenticate calls by the initiator (back-to-back), a further StartAuthenticate at any moment by either side (S2r / S2x), in sessions that came about by a first exchange, by a refresh (Hr) by a re-key after one side ended and its disconnect was lost (Ha), and by a refresh after an earlier SMP run in which the peer came back with another long-term key (Hk); oracle: success on both sides ⇔ secrets byte-equal, never success otherwise, failure on the responder and failure/abort on the initiator, the secret asked for exactly once per run, no chat text lost. Relay world: A–M1 and M2–B separately keyed, M forwards every SMP TLV it decrypts (with the attacker's own key, and with the relay's conversations holding the honest parties' own long-term keys, i.e. other instances of the same identities): no success on A or B for every pair, initiator, question, version (each run must reach a verdict)"
+			r.Rule = "honest world: for every secret pair (empty, equal, case / last-bit / NUL-suffix / prefix / trailing-blank differences, blank vs. empty, invalid UTF-8, 1000-byte, binary) × with/without question (and questions of 1 … 70000 bytes) × either initiator × v2/v3: explicit-state exploration of all interleavings of SMP steps, the answer, a budget of chat texts either way (forcing key rotation) and a clock tick, with 1 or 2 StartAuthenticate calls by the initiator (back-to-back), a further StartAuthenticate at any moment by either side (S2r / S2x), in sessions that came about by a first exchange, by a refresh (Hr) by a re-key after one side ended and its disconnect was lost (Ha), and by a refresh after an earlier SMP run in which the peer came back with another long-term key (Hk); oracle: success on both sides ⇔ secrets byte-equal, never success otherwise, failure on the responder and failure/abort on the initiator, the secret asked for exactly once per run, no chat text lost. Relay world: A–M1 and M2–B separately keyed, M forwards every SMP TLV it decrypts (with the attacker's own key, and with the relay's conversations holding the honest parties' own long-term keys, i.e. other instances of the same identities): no success on A or B for every pair, initiator, question, version (each run must reach a verdict)"
 			r.Assumptions = []string{"one initiator per configuration (simultaneous initiation by both sides is not a run of the protocol)", "the relay opens data messages with package-internal key material of its own conversations"}
 			pairs := c11Pairs()
 			var ids []string
@@ -573,7 +581,8 @@ func init() {
 				ids = append(ids, "v3/a-a/noq/initA/S2/T0", "v2/a-b/q/initB/S2/T0", "v2/a-a/q/initB/S1/T2",
 					"v3/a-a/q/initA/S2r/T0", "v2/a-a/noq/initB/S2x/T0", "v3/a-b/noq/initB/S2r/T0", "v2/a-b/q/initA/S2x/T0",
 					"v3/a-A/q/initA/S1/T0", "v2/trailing-space/q/initB/S1/T0", "v3/empty-vs-space/q/initB/S1/T0", "v2/invalid-utf8/q/initA/S1/T0",
-					"v3/a-a/noq/initA/S1/T0/Hr", "v2/a-a/q/initB/S1/T0/Ha", "v3/a-a/q/initB/S1/T0/Ha", "v2/a-b/noq/initA/S1/T0/Hr", "v3/a-a/noq/initA/S1/T0/Hk", "v2/a-a/q/initB/S1/T0/Hk")
+					"v3/a-a/noq/initA/S1/T0/Hr", "v2/a-a/q/initB/S1/T0/Ha", "v3/a-a/q/initB/S1/T0/Ha", "v2/a-b/noq/initA/S1/T0/Hr", "v3/a-a/noq/initA/S1/T0/Hk", "v2/a-a/q/initB/S1/T0/Hk",
+					"v3/a-a/q1024/initA/S1/T0", "v2/a-a/q3000/initB/S1/T0", "v3/a-b/q1023/initB/S1/T0")
 			} else {
 				for _, p := range pairs {
 					for _, v := range []int{2, 3} {
@@ -591,6 +600,11 @@ func init() {
 								ids = append(ids, fmt.Sprintf("v%d/%s/noq/init%s/S1/T1/%s", v, p, ini, h))
 							}
 						}
+					}
+				}
+				for _, ql := range []int{1, 255, 256, 1023, 1024, 1025, 3000, 70000} {
+					for _, v := range []int{2, 3} {
+						ids = append(ids, fmt.Sprintf("v%d/a-a/q%d/initA/S1/T0", v, ql), fmt.Sprintf("v%d/a-b/q%d/initB/S1/T0", v, ql))
 					}
 				}
 				for _, p := range []string{"a-a", "a-b", "long-last-bit", "empty-equal"} {
